@@ -673,12 +673,21 @@ func NewMulBigIntMemoryUsage(a, b *big.Int) MemoryUsage {
 }
 
 func NewModBigIntMemoryUsage(a, b *big.Int) MemoryUsage {
+	return newDivModBigIntMemoryUsage(a, b, true)
+}
+
+func NewDivBigIntMemoryUsage(a, b *big.Int) MemoryUsage {
+	return newDivModBigIntMemoryUsage(a, b, false)
+}
+
+func newDivModBigIntMemoryUsage(a, b *big.Int, isMod bool) MemoryUsage {
 	// NOTE: a and b are compared by their absolute values
 	//
 	// if a < b or |b| == 1:
 	//     |a| + 4
 	// else if |b| < 100:
-	//     |a| - |b| + 5
+	//     quotient: |a| - |b| + 5
+	//     remainder: max(|a| - |b| + 5, |b| + 4), as the remainder has up to |b| words
 	// else:
 	//     recursion_cost = pointer_size + 9 * |b| + floor(|a| / |b|) + 12
 	//     recursion_depth = 2 * BitLen(b)
@@ -692,6 +701,9 @@ func NewModBigIntMemoryUsage(a, b *big.Int) MemoryUsage {
 		resultWordLength = aWordLength + 4
 	} else if bWordLength < 100 {
 		resultWordLength = aWordLength - bWordLength + 5
+		if isMod {
+			resultWordLength = max(resultWordLength, bWordLength+4)
+		}
 	} else {
 		recursionCost := int(unsafe.Sizeof(uintptr(0))) +
 			9*bWordLength +
@@ -702,10 +714,6 @@ func NewModBigIntMemoryUsage(a, b *big.Int) MemoryUsage {
 	return NewBigIntMemoryUsage(
 		resultWordLength * BigIntWordSize,
 	)
-}
-
-func NewDivBigIntMemoryUsage(a, b *big.Int) MemoryUsage {
-	return NewModBigIntMemoryUsage(a, b)
 }
 
 func NewBitwiseOrBigIntMemoryUsage(a, b *big.Int) MemoryUsage {
